@@ -113,7 +113,7 @@ def correspondence(ctx, r, tabs, info, per_proto=3, focus=()):
                 W.enc(name, p, 0)
             for k in range(n):
                 W.enc(name, P.sample_params(d, r), k % 3)
-        if inf['decode'] == 'traced' and ec.py_supported(t):
+        if inf['decode'] == 'traced' and (ec.py_supported(t) or (ec.py_supported_m(t) and not t['repeat_bursts'])):
             for k in range(max(1, n // 2)):
                 pa, pb = P.sample_params(d, r), P.sample_params(d, r)
                 try:
